@@ -159,6 +159,22 @@ def handle (toks : List String) : Option String :=
           | some t => stageStr t
           | none => "bad-op"
       | none => "bad-op"
+  | "tpn.ctor" :: n :: rest => some <| Id.run do
+      -- tpn.ctor N x11 x12 x21 x22 s1 s2   (each a rational or `none`): what the constructor keeps (`sym` = defaulted)
+      let parseArg (t : String) : Option (Option Rat) := if t == "none" then some none else (parseRat t).map some
+      match (Gen.ctorRules).lookup n, rest.mapM parseArg with
+      | some (er, sr), some args =>
+        if args.length != 6 || er.length != 4 || sr.length != 2 then "bad-op"
+        else
+          let rules := er ++ sr
+          let outs := (rules.zip args).map fun (r, a) =>
+            match r.apply a with
+            | some v => ratToStr v
+            | none => "sym"
+          " ".intercalate outs
+      | none, _ => "unknown-def"
+      | _, none => "bad-op"
+  | ["tp.chainconv"] => some (toString (repr Gen.chainArgConv))
   | ["tpn.eqvec"] => some (toString (repr (Gen.equationVectors)))
   | _ => none
 
